@@ -69,6 +69,53 @@ Theorem C12_limit_of_sorted_partial : forall srt ks n rows, sorter_ok srt -> ks 
 Proof. exact order_limit_sorted_prefix_d12. Qed.
 Print Assumptions C12_limit_of_sorted_partial.
 
+Definition one_col' (cells : list cell) : list row := map (fun c => [(1%N, c)]) cells.
+
+(* Time anchors: CHRONOLOGICAL order, for every rendering [fmt_time] of (instant, zone) that obeys the RFC3339Nano order
+   law - within one zone, renderings of equal length (same number of fraction digits) order like the instants - and
+   has no outer white space.  D12 then also admits key columns of anchors whose printed form is that rendering, all in
+   one zone and of one length (tm_ok_o / tm_pair_o).  The law is an ORACLE about time.Format: it is checked on every
+   generated case by the correspondence (value order of every such table) and shown consistent below. *)
+Theorem C12_sorted_time_partial : forall (fmt_time : Z -> Z -> str),
+  (forall off n1 n2, in_int64 n1 = true -> in_int64 n2 = true ->
+     List.length (fmt_time n1 off) = List.length (fmt_time n2 off) ->
+     str_compare (fmt_time n1 off) (fmt_time n2 off) = Z.compare n1 n2) ->
+  (forall n off, trim_space (fmt_time n off) = fmt_time n off) ->
+  forall srt ks rows out, sorter_ok srt -> ks <> [] ->
+  d12_gen (tm_ok_o fmt_time) tm_pair_o no_lit ks rows = true -> order_by_with srt (Some ks) rows = Ok out ->
+  Permutation rows out /\ spec_sorted ks out.
+Proof. exact order_by_sorted_d12_time. Qed.
+Print Assumptions C12_sorted_time_partial.
+
+(* ... and float64 NUMERICALLY on the domain "finite, 0 <= f < 10^25, at most six decimals" under the analogous law for
+   %032f (oracle; checked on every generated case; no Gallina instance, so the consistency of THIS law is not shown) *)
+Theorem C12_sorted_time_float_partial : forall (fmt_time : Z -> Z -> str) (fmt_float : spec_float -> str),
+  (forall off n1 n2, in_int64 n1 = true -> in_int64 n2 = true ->
+     List.length (fmt_time n1 off) = List.length (fmt_time n2 off) ->
+     str_compare (fmt_time n1 off) (fmt_time n2 off) = Z.compare n1 n2) ->
+  (forall n off, trim_space (fmt_time n off) = fmt_time n off) ->
+  (forall x y, sf_in_domain x = true -> sf_in_domain y = true ->
+     str_compare (fmt_float x) (fmt_float y) = match SFcompare x y with Some o => o | None => Eq end) ->
+  (forall x, trim_space (fmt_float x) = fmt_float x) ->
+  forall srt ks rows out, sorter_ok srt -> ks <> [] ->
+  d12_o fmt_time fmt_float ks rows = true -> order_by_with srt (Some ks) rows = Ok out ->
+  Permutation rows out /\ spec_sorted ks out.
+Proof. exact order_by_sorted_d12_oracles. Qed.
+Print Assumptions C12_sorted_time_float_partial.
+
+(* the time law is consistent and the extended D12 is inhabited: a toy rendering satisfies the law, and a table with a
+   descending anchor column rendered by it is in D12 and gets sorted chronologically *)
+Definition toy_tm (ns : Z) : cell := CT (mkTim ns 0 (toy_fmt_time ns 0)).
+Example C12_time_law_consistent :
+  ((forall off n1 n2, in_int64 n1 = true -> in_int64 n2 = true ->
+      List.length (toy_fmt_time n1 off) = List.length (toy_fmt_time n2 off) ->
+      str_compare (toy_fmt_time n1 off) (toy_fmt_time n2 off) = Z.compare n1 n2) /\
+   (forall n off, trim_space (toy_fmt_time n off) = toy_fmt_time n off)) /\
+  d12_gen (tm_ok_o toy_fmt_time) tm_pair_o no_lit [mkKey 1%N true] (one_col' [toy_tm 5; toy_tm (-7); toy_tm 100]) = true /\
+  order_by (Some [mkKey 1%N true]) (one_col' [toy_tm 5; toy_tm (-7); toy_tm 100]) =
+    Ok (one_col' [toy_tm 100; toy_tm 5; toy_tm (-7)]).
+Proof. split; [exact toy_fmt_time_laws|]. split; vm_compute; reflexivity. Qed.
+
 (* the formatting fact behind the int64 part of D12: %032d orders like the integers on 0 <= v < 2^63 *)
 Theorem C12_int_strings_order_partial : forall a b, 0 <= a < two63 -> 0 <= b < two63 ->
   str_compare (int_cmp_string a) (int_cmp_string b) = Z.compare a b.
